@@ -249,7 +249,12 @@ fn c14_corpus(tier: Tier, seed: u64) -> Vec<Layout> {
     v.extend(sample_choices(seed, 14, n / 3, 320).iter().map(|w| build_layout(&p, w)));
     p.need_builder = false;
     p.default = DefaultMode::Maybe;
+    // fields without access specifier next to the others: they take no part in the builder
+    p.access = AccessMode::MixedWithNone;
+    p.ensure_writable = false;
     v.extend(sample_choices(seed, 15, n / 3, 320).iter().map(|w| build_layout(&p, w)));
+    p.access = AccessMode::Mixed;
+    p.ensure_writable = true;
     p.overlap = true;
     p.base = BaseMode::SmallBias;
     v.extend(sample_choices(seed, 16, n / 3, 320).iter().map(|w| build_layout(&p, w)));
